@@ -139,7 +139,36 @@ func NetVMLContents(t Tier, f func([]byte)) {
 	}
 }
 
+// NetWriteSeq: 2..5 header writes, about a third of them to a writer that fails after 0..width bytes
+func NetWriteSeq(r *Rng, h string) string {
+	n := 2 + r.Intn(4)
+	ops := make([]string, n)
+	for i := range ops {
+		v := r.Intn(NetMax(h) + 1)
+		switch r.Intn(8) {
+		case 0:
+			v = r.Intn(100)
+		case 1:
+			v = NetMax(h) + r.Intn(3)
+		case 2:
+			v = -r.Intn(3)
+		}
+		if r.Intn(3) == 0 {
+			ops[i] = fmt.Sprintf("f%d:%d", r.Intn(NetSize(h)+1), v)
+		} else {
+			ops[i] = fmt.Sprintf("w%d", v)
+		}
+	}
+	return strings.Join(ops, ",")
+}
+
 func ChannelN(t Tier, r *Rng, emit Emit) {
+	// 0. sequences of writes, some to a failing writer
+	for _, h := range NetHeaders {
+		for i := 0; i < t.N(400, 8000); i++ {
+			emit(fmt.Sprintf("N %s writeseq %s", h, NetWriteSeq(r, h)))
+		}
+	}
 	// 1. SetLength + WriteTo for all lengths -2..70000, and far-out lengths
 	for _, h := range NetHeaders {
 		for n := -2; n <= 70000; n++ {
